@@ -86,6 +86,8 @@ func c13Alphabet() map[string]c13Msg {
 		{Name: "dSD", Dels: []Path{P("if", e1, "oper-state"), P("if", e1, "descr")}},
 		{Name: "dDS", Dels: []Path{P("if", e1, "descr"), P("if", e1, "oper-state")}},
 		{Name: "uSD", Upds: []Leaf{leaf("up", "if", e1, "oper-state"), leaf("z", "if", e1, "descr")}},
+		// delete of the entry and a JSON blob for it in one notification
+		{Name: "rJ", Dels: []Path{P("if", e1)}, JSON: &c13JSON{At: P("if", e1), Doc: `{"descr":"j2"}`, Leaves: []Leaf{leaf("j2", "if", e1, "descr")}}},
 		{Name: "rE1", Dels: []Path{P("if", e1)}, Upds: []Leaf{leaf("n", "if", e1, "descr")}},
 		{Name: "START", Start: true},
 		{Name: "END", End: true},
@@ -100,7 +102,7 @@ func c13Alphabet() map[string]c13Msg {
 func c13Preload() []Leaf {
 	e10 := K{"name", "e10"}
 	return []Leaf{
-		leaf("e1", "if", e1, "name"), leaf("old", "if", e1, "descr"),
+		leaf("e1", "if", e1, "name"), leaf("old", "if", e1, "descr"), leaf("1g", "if", e1, "speed"),
 		leaf("e10", "if", e10, "name"), leaf("old10", "if", e10, "descr"),
 		leaf("9", "sys", "mtu-ext"),
 		leaf("e1", "ifx", e1, "name"), leaf("oldx", "ifx", e1, "descr"),
@@ -593,7 +595,7 @@ func c13Scenario(u *Universe, seq []string, workers int64, validate bool) verifr
 }
 
 func c13Sequences() [][]string {
-	all := []string{"uA", "uB", "uX", "uM", "uS", "uJ", "uK", "uL", "uL2", "uIfx", "dE1", "dD", "dM", "dIf", "rE1", "dSD", "dDS", "uSD"}
+	all := []string{"uA", "uB", "uX", "uM", "uS", "uJ", "uK", "uL", "uL2", "uIfx", "dE1", "dD", "dM", "dIf", "rE1", "rJ", "dSD", "dDS", "uSD"}
 	var seqs [][]string
 	maxLen := 2
 	if Tier() == "thorough" {
